@@ -24,6 +24,7 @@ def main():
         src = core.Source(edits=[tuple(e.split('=>', 1)) for e in a.edit])
         info = mod.generate(src) or {}
         rep['functions'] = src.functions
+        rep['edits_applied'] = [i in src.applied for i in range(len(src.edits))]
         rep['info'] = info
         rep['trusted'] = list(getattr(mod, 'TRUSTED', []))
         rep['dropped'] = list(getattr(mod, 'DROPPED', ['docstrings', 'type annotations', 'logger.* calls (no-ops)']))
